@@ -68,6 +68,7 @@ Explain ==
       [] ev.e = "mutate"    -> Mutate(ev.slot, ev.img)
       [] ev.e = "copy"      -> Copy(ev.slot, ev.into)
       [] ev.e = "drop"      -> Drop(ev.slot)
+      [] ev.e = "close"     -> Close(ev.slot)
       [] ev.e = "cli"       -> Cli(ev.loc, ev.img, ev.rpc, ev.target)
       [] ev.e = "redeliver" -> Redeliver(ev.loc, ev.ver)
       [] ev.e = "copyto"    -> CopyTo(ev.loc, ev.dst)
@@ -85,7 +86,7 @@ Clause(ev, la, loc2, adj2) ==
       [] ev.e = "load" -> JudgeLoad(ev, la)
       [] ev.e = "cli"  -> JudgeCli(ev, la, loc2, adj2)
       [] ev.e = "copy" -> IF JudgeQuiet(ev) # "" THEN JudgeQuiet(ev) ELSE IF ~ev.typed THEN "copy-untyped" ELSE ""   \* a copy is a tree like any other (C12)
-      [] ev.e \in {"mutate", "drop"} -> JudgeQuiet(ev)
+      [] ev.e \in {"mutate", "drop", "close"} -> JudgeQuiet(ev)
       [] OTHER -> ""
 
 HasCells(ev) == ev.e \in {"open", "cli"}
